@@ -380,6 +380,10 @@ def naming(kind, n_max=20):
         return {k: ("z" if k == lk else str(k)) for k in range(1, n_max + 1)}
     if kind == "collide":
         return {k: 8 * (k - 1) for k in range(1, n_max + 1)}
+    if kind == "scatter":
+        # ints whose order inside a CPython set depends on the other members of the set
+        w = [16, 17, 3, 24, 1, 33, 9, 40, 25, 2, 64, 11]
+        return {k: (w[k - 1] if k <= len(w) else 100 + k) for k in range(1, n_max + 1)}
     if kind == "big":
         return {k: 100 + k for k in range(1, n_max + 1)}
     if kind == "mixedraw":
